@@ -31,7 +31,10 @@ namespace sim {
 		// simplified network model where the two paths of a connection are set up
 		// independently, and we can set up the nat hop only on the outgoing path
 		p.from.address(m_external_addr);
-		if (p.channel) {
+		// only the connection attempt (SYN) travels from the connector and
+		// defines how it appears to the other end. A SYN+ACK coming back
+		// through the acceptor's NAT must not alter the connector's endpoint
+		if (p.channel && p.type == aux::packet::type_t::syn) {
 			p.channel->visible_ep[0].address(m_external_addr);
 		}
 		forward_packet(std::move(p));
